@@ -154,7 +154,9 @@ def scarce(rng, cat):
         b.push("s", w, b.form_for(w), sig="codec-default-push", cmp="idx")
     b.merge("t", ["s"])
     b.s.nontrivial = True
-    for w in [rng.pick(words + extra) for _ in range(30)]:
+    # ... and afterwards every word once: whichever string got the *last* free tag (255 in the UTF-8 entries, where the
+    # free tags are 0 and 128..255 and there are more words than tags) is pushed, not only a sample of 30
+    for w in [rng.pick(words + extra) for _ in range(30)] + words + extra:
         k, _ = b.push("t", w, b.form_for(w), expect=("prefix", "idx"), sig="codec-unambiguous-refused", cmp="idx")
         b.read("t", k, sig="codec-read-differs")
     return b.s
